@@ -389,15 +389,17 @@ struct WCase {
   items: usize,
   error: bool,
   preemptions: Vec<(u64, usize)>,
+  /// what the waiting thread blocks on: 0 the wait_for_end future, 1 to_future(), 2 collect().to_future(),
+  /// 3 to_stream() read to its end
+  conv: u8,
 }
 
 fn exec_wait(case: &WCase) -> (crate::engine_t::RunStats, bool) {
+  use futures::StreamExt;
   use std::sync::atomic::AtomicBool;
   crate::vtime::reset(crate::vtime::Mode::Fifo);
   let subject = SubjectThreads::<i64, u8>::default();
-  let (o, st) = subject.clone().complete_status();
-  let _sub = o.actual_subscribe(Sink);
-  let returned_early = Arc::new(AtomicBool::new(false));
+  let bad = Arc::new(AtomicBool::new(false));
   let producer: Box<dyn FnOnce() + Send> = {
     let mut s = subject.clone();
     let (items, error) = (case.items, case.error);
@@ -412,32 +414,105 @@ fn exec_wait(case: &WCase) -> (crate::engine_t::RunStats, bool) {
       }
     })
   };
-  let waiter: Box<dyn FnOnce() + Send> = {
-    let st = st.clone();
-    let early = returned_early.clone();
-    Box::new(move || {
-      let _ = crate::engine_t::block_on(CompleteStatus::verif_wait_future(st.clone()));
-      if !st.is_closed() {
-        early.store(true, Ordering::SeqCst);
-      }
-    })
+  let (items, error) = (case.items, case.error);
+  let waiter: Box<dyn FnOnce() + Send> = match case.conv {
+    0 => {
+      let (o, st) = subject.clone().complete_status();
+      let sub = o.actual_subscribe(Sink);
+      let early = bad.clone();
+      Box::new(move || {
+        let _keep = sub;
+        let _ = crate::engine_t::block_on(CompleteStatus::verif_wait_future(st.clone()));
+        if !st.is_closed() {
+          early.store(true, Ordering::SeqCst);
+        }
+      })
+    }
+    1 => {
+      let fut = subject.clone().to_future();
+      let wrong = bad.clone();
+      Box::new(move || {
+        let r = crate::engine_t::block_on(fut);
+        // single item then complete: that item; an error after <= 1 item: the error; otherwise Empty / MultipleValues
+        // (after several items an error may also be reported as MultipleValues, DESIGN 7)
+        let ok = match (&r, items, error) {
+          (Ok(Ok(v)), 1, false) => *v == 0,
+          (Ok(Err(e)), 0, true) | (Ok(Err(e)), 1, true) => *e == 9,
+          (Ok(Err(e)), _, true) => *e == 9,
+          (Err(_), 0, false) => true,
+          (Err(_), n, _) if n >= 2 => true,
+          (Err(_), 1, true) => true, // an item and then an error: the error or MultipleValues (DESIGN 7)
+          _ => false,
+        };
+        if !ok {
+          wrong.store(true, Ordering::SeqCst);
+        }
+      })
+    }
+    2 => {
+      let fut = subject.clone().collect::<Vec<i64>>().to_future();
+      let wrong = bad.clone();
+      Box::new(move || {
+        let r = crate::engine_t::block_on(fut);
+        let ok = match (&r, error) {
+          (Ok(Ok(v)), false) => *v == (0..items as i64).collect::<Vec<_>>(),
+          (Ok(Err(e)), true) => *e == 9,
+          _ => false,
+        };
+        if !ok {
+          wrong.store(true, Ordering::SeqCst);
+        }
+      })
+    }
+    _ => {
+      let mut stream = Box::pin(subject.clone().to_stream());
+      let wrong = bad.clone();
+      Box::new(move || {
+        let got: Vec<Result<i64, u8>> = crate::engine_t::block_on(async move {
+          let mut v = vec![];
+          while let Some(x) = stream.next().await {
+            v.push(x);
+          }
+          v
+        });
+        let mut exp: Vec<Result<i64, u8>> = (0..items as i64).map(Ok).collect();
+        if error {
+          exp.push(Err(9));
+        }
+        if got != exp {
+          wrong.store(true, Ordering::SeqCst);
+        }
+      })
+    }
   };
   // thread 0 = waiter (starts first, so that it can be preempted inside its first poll), thread 1 = producer
   let stats = crate::engine_t::run_threads(vec![waiter, producer], case.preemptions.clone(), 2_000);
-  (stats, returned_early.load(Ordering::SeqCst))
+  (stats, bad.load(Ordering::SeqCst))
+}
+
+fn conv_name(c: u8) -> &'static str {
+  match c {
+    0 => "wait_for_end",
+    1 => "to_future",
+    2 => "collect+to_future",
+    _ => "to_stream",
+  }
 }
 
 fn judge_wait(case: &WCase) -> (Verdict, crate::engine_t::RunStats) {
   use crate::engine_t::Verdict as TV;
-  let (stats, early) = exec_wait(case);
+  let (stats, bad) = exec_wait(case);
+  let name = conv_name(case.conv);
   let v = match &stats.verdict {
-    TV::LostWakeup(m) => Verdict::Violation { sig: "threads:lost-wakeup:wait_for_end".into(), detail: format!("the producer finished (terminal delivered) but the waiter is parked for ever: {m}") },
-    TV::Deadlock(m) => Verdict::Violation { sig: "threads:deadlock:wait_for_end".into(), detail: m.clone() },
-    TV::Panic(m) => Verdict::Violation { sig: "threads:panic:wait_for_end".into(), detail: m.clone() },
-    TV::StepLimit => Verdict::Violation { sig: "threads:livelock:wait_for_end".into(), detail: "step limit".into() },
+    TV::LostWakeup(m) => Verdict::Violation { sig: format!("threads:lost-wakeup:{name}"), detail: format!("the producer finished (terminal delivered) but the waiter is parked for ever: {m}") },
+    TV::Deadlock(m) => Verdict::Violation { sig: format!("threads:deadlock:{name}"), detail: m.clone() },
+    TV::Panic(m) => Verdict::Violation { sig: format!("threads:panic:{name}"), detail: m.clone() },
+    TV::StepLimit => Verdict::Violation { sig: format!("threads:livelock:{name}"), detail: "step limit".into() },
     TV::Completed => {
-      if early {
+      if bad && case.conv == 0 {
         Verdict::Violation { sig: "threads:returned-early:wait_for_end".into(), detail: "the wait future resolved although the status was not closed".into() }
+      } else if bad {
+        Verdict::Violation { sig: format!("threads:wrong-outcome:{name}"), detail: format!("{} item(s) then {}: the waiter was handed a different outcome", case.items, if case.error { "error" } else { "complete" }) }
       } else {
         Verdict::Ok
       }
@@ -453,9 +528,22 @@ fn run_threads(c: &mut dyn Choices, ctx: &Ctx) -> Outcome {
   let mut labels = vec!["part:threads"];
   let mut nt = false;
   let mut worst: Option<(Verdict, WCase)> = None;
+  // the random branch draws its preemptions first, so that the conversion is the last pick in both branches
+  // (recorded tapes keep their meaning: they end before it and read 0 = wait_for_end)
+  let pre_random: Vec<(u64, usize)> = if exhaustive {
+    vec![]
+  } else {
+    let k = c.pick(4);
+    let mut pre: Vec<(u64, usize)> = (0..k).map(|_| (1 + c.pick(25) as u64, c.pick(2))).collect();
+    pre.sort();
+    pre.dedup_by_key(|p| p.0);
+    pre
+  };
+  let conv = c.pick(4) as u8;
+  labels.push(conv_name(conv));
   if exhaustive {
     labels.push("exhaustive-2");
-    let base = WCase { items, error, preemptions: vec![] };
+    let base = WCase { items, error, preemptions: vec![], conv };
     let (_, s0) = judge_wait(&base);
     let total = s0.yields.min(30);
     'outer: for s1 in 1..=total {
@@ -463,7 +551,7 @@ fn run_threads(c: &mut dyn Choices, ctx: &Ctx) -> Outcome {
         for s2 in s1..=total {
           for t2 in 0..2 {
             let pre = if s2 == s1 { vec![(s1, t1)] } else { vec![(s1, t1), (s2, t2)] };
-            let case = WCase { items, error, preemptions: pre };
+            let case = WCase { items, error, preemptions: pre, conv };
             let (v, st) = judge_wait(&case);
             nt |= st.preemptions_taken > 0;
             if let Verdict::Violation { .. } = v {
@@ -478,11 +566,7 @@ fn run_threads(c: &mut dyn Choices, ctx: &Ctx) -> Outcome {
       }
     }
   } else {
-    let k = c.pick(4);
-    let mut pre: Vec<(u64, usize)> = (0..k).map(|_| (1 + c.pick(25) as u64, c.pick(2))).collect();
-    pre.sort();
-    pre.dedup_by_key(|p| p.0);
-    let case = WCase { items, error, preemptions: pre };
+    let case = WCase { items, error, preemptions: pre_random, conv };
     let (v, st) = judge_wait(&case);
     nt = st.preemptions_taken > 0;
     if let Verdict::Violation { .. } = v {
@@ -492,7 +576,7 @@ fn run_threads(c: &mut dyn Choices, ctx: &Ctx) -> Outcome {
     }
   }
   let (verdict, desc) = match worst {
-    Some((v, case)) => (v, Some(json!({"producer": format!("{} item(s) then {}", case.items, if case.error {"error"} else {"complete"}), "waiter": "block_on(wait future)", "preemptions(step->thread; 0=waiter,1=producer)": case.preemptions}))),
+    Some((v, case)) => (v, Some(json!({"producer": format!("{} item(s) then {}", case.items, if case.error {"error"} else {"complete"}), "waiter": format!("block_on({})", conv_name(case.conv)), "preemptions(step->thread; 0=waiter,1=producer)": case.preemptions}))),
     None => (Verdict::Ok, None),
   };
   Outcome { verdict, nontrivial: nt, hash: hash_of(&(items, error, exhaustive, c.record().to_vec())), labels, notes: vec![], desc }
